@@ -231,6 +231,32 @@ def run_collisions(a):
     return {"viol": viol, "files": files, "n": len(pn)}
 
 
+PARAM_CASES = ["kebab-case", "SCREAMING-KEBAB-CASE", "snake_case", "PascalCase", "SCREAMING_SNAKE_CASE", "lowercase", "UPPERCASE", "camelCase"]
+
+
+def run_param_case(a):
+    """the configured parameter-key convention (some conventions give keys that are not identifiers): the parameter objects have the
+    same keys in both modes, whatever the keys look like"""
+    cli, k = a
+    case = PARAM_CASES[k % len(PARAM_CASES)]
+    src = (rg.PRELUDE + "use tauri::ipc::Channel;\n\n" + rg.struct_src("Named", [("a", "i32")]) +
+           rg.command_src("open_account", [("account_id", "u32"), ("include_closed", "bool"), ("x", "Option<Named>")], "Named") +
+           rg.command_src("watch_account", [("account_id", "u32"), ("on_change_event", "Channel<Named>"), ("dry_run", "Option<bool>")], "i32") +
+           rg.command_src("plain", [("id", "i32")], "i32"))
+    files = [("lib.rs", src)]
+    r = observe(cli, [], files=files, config={"default_parameter_case": case} if k // len(PARAM_CASES) % 2 == 0 or case != "camelCase" else None)
+    if "inconclusive" in r or "blocked" in r:
+        return r
+    viol = []
+    pn, pz = r["none"]["pkeys"], r["zod"]["pkeys"]
+    if r["zod"]["errors"] or r["none"]["errors"]:
+        viol.append(("C10 parameter-object-keys-differ parameter-case=%s types.ts-does-not-parse" % case, "types.ts has %d (plain) / %d (Zod) syntax errors under default_parameter_case %s" % (r["none"]["errors"], r["zod"]["errors"], case)))
+    for n_ in sorted(set(pn) | set(pz)):
+        if pn.get(n_) != pz.get(n_):
+            viol.append(("C10 parameter-object-keys-differ parameter-case=%s" % case, "%s: plain mode has keys %s, the Zod-mode type has %s" % (n_, pn.get(n_), pz.get(n_))))
+    return {"viol": viol, "files": files, "case": case}
+
+
 VIS_FORMS = ["pub ", "", "pub(crate) ", "pub(super) ", "pub(in crate::models) "]
 
 
@@ -411,6 +437,16 @@ def run(tier):
         v.count("colliding_name_projects_compared")
         for (sig, what) in r["viol"]:
             v.violation(sig, what, proj.witness_of(r["files"], "both"))
+    pjobs = [(cli, k_) for k_ in range(2 * len(PARAM_CASES))]
+    for (job, r) in zip(pjobs, common.pmap(run_param_case, pjobs, chunksize=2)):
+        if "inconclusive" in r or "blocked" in r:
+            v.blocked += 1
+            v.evaluations += 1
+            continue
+        v.case(("parameter-case", job[1]), nontrivial=True)
+        v.count("parameter_case_settings_compared")
+        for (sig, what) in r["viol"]:
+            v.violation(sig, what, proj.witness_of(r["files"], "both", config={"default_parameter_case": r["case"]}))
     vjobs = [(cli, k_) for k_ in (range(common.seed() % 3, 125, 3) if tier == "quick" else range(250))]
     for (job, r) in zip(vjobs, common.pmap(run_visibility, vjobs, chunksize=4)):
         if "blocked" in r:
